@@ -66,6 +66,9 @@ TABLE = {
     "mutants/tcp_inflight_not_released_on_drop.patch": ["C06"],
     "mutants/tcp_drop_fun_not_rearmed.patch": ["C06"],
     "mutants/tcp_close_keeps_forwarder.patch": ["C12", "C05"],
+    "mutants/timer_expired_wait_runs_inline.patch": ["C04"],
+    "mutants/udp_receive_with_data_runs_inline.patch": ["C04"],
+    "mutants/resolver_cancel_runs_handlers_inline.patch": ["C04"],
     "mutants/tcp_new_read_does_not_abort_old.patch": ["C04"],
     "mutants/tcp_reorder_release_skips_seq.patch": ["C05", "C06"],
 }
